@@ -245,6 +245,27 @@ fn variants_added(name: &str, text: &str, is_cte: bool) -> Vec<Variant> {
     v
 }
 
+/// (1b) an unrelated definition built on top of an existing one: a coloured CONSTRUCTION over the first LAYERS of the
+/// document (nothing uses it; the composition it refers to keeps its identity)
+fn variants_built_on_existing(name: &str, text: &str, is_cte: bool) -> Vec<Variant> {
+    let mut v = vec![];
+    for (ty, a, _) in blocks_of(text) {
+        if ty != "LAYERS" {
+            continue;
+        }
+        let header = text[a..].lines().next().unwrap_or("");
+        let Some(lname) = header.trim().strip_prefix('"').and_then(|r| r.split('"').next()) else { continue };
+        for abs in ["0.9", "0.3"] {
+            let extra = format!("\"ZZ {} {}\" = CONSTRUCTION\n    TYPE = LAYERS\n    LAYERS = \"{}\"\n    ABSORPTANCE = {}\n    ..\n", lname, abs, lname, abs);
+            v.push(Variant { text: insert_before_end(text, is_cte, &extra), case: json!({"part": "id-locality", "file": name, "added": "CONSTRUCTION over an existing LAYERS", "layers": lname, "absorptance": abs}), id_key: "changes-when-adding-CONSTRUCTION-over-existing-LAYERS".into(), what: format!("after appending an unused CONSTRUCTION (absorptance {}) over the existing LAYERS {:?}", abs, lname), duplicate_of: None, check_ids: true });
+        }
+        if v.len() >= 4 {
+            break; // the first two compositions of the document
+        }
+    }
+    v
+}
+
 /// (2) the first block of every type written twice (straight after itself, or again at the end of the document): the
 /// same definition given twice is still one definition
 fn variants_duplicated(name: &str, text: &str, is_cte: bool, places: usize) -> Vec<Variant> {
@@ -547,6 +568,7 @@ pub fn run(ctx: &Ctx) -> i32 {
             let text = if *is_cte { corpus::read_latin1(p) } else { corpus::read_utf8(p) };
             let name = p.rsplit('/').next().unwrap();
             let mut vs = variants_added(name, &text, *is_cte);
+            vs.extend(variants_built_on_existing(name, &text, *is_cte));
             vs.extend(variants_duplicated(name, &text, *is_cte, ctx.tier.pick(1, 2)));
             if borrow.contains(p) {
                 vs.extend(variants_borrowed_names(name, &text, *is_cte));
@@ -557,6 +579,7 @@ pub fn run(ctx: &Ctx) -> i32 {
     for s in projgen::all_specs(Tier::Quick).iter().step_by(ctx.tier.pick(97, 11)) {
         let (name, text) = (format!("generated {:?}", s), projgen::ctehexml_text(s));
         let mut vs = variants_added(&name, &text, false);
+        vs.extend(variants_built_on_existing(&name, &text, false));
         vs.extend(variants_duplicated(&name, &text, false, 2));
         vs.extend(variants_borrowed_names(&name, &text, false));
         loc_n += run_variants(ctx, &name, &text, false, vs);
@@ -759,7 +782,7 @@ pub fn run(ctx: &Ctx) -> i32 {
     }
     ctx.finish(
         "model_checking",
-        &format!("(1) histories: every sequence of 1 and 2 operations over 9 operations (3 conversions, 5 indicator computations incl. a model without windows and a broken model, 1 collect_hulc_data with extra files) and {} sequences of 3 over a 6-operation core, each run in a fresh worker process: the last operation's observation (model JSON bytes / indicators as JSON value) must equal its observation as the only operation of a fresh process, and repeat identically 3x in-process; 4 conversions x 8 fresh processes byte-identical; (2) id locality: for corpus and generated projects, appending each of 12 unrelated definitions (material, layers, glass, frame, gap, polygon, day/week/year schedule, shade, bridge, floor+space+wall) keeps every pre-existing element id - also when the added definition borrows the name of an existing definition of another kind of the same family (day/week/year schedules; material/layers/glazing/frame/gap) -, and writing the first block of every type twice (straight after itself / again at the end) gives the same bytes on every conversion, on another thread too, and keeps the ids; (3) schedules: controlled scheduler over the three hooked lock sites, real threads, DFS with preemption bounds as listed in schedule_exploration (deadlock / panic / result-vs-sequential-reference per execution, replay determinism checked first), + a free-running 16-thread sampling complement; (4) the 6 shipped (project, reference model) pairs compared through today's serialiser; (5) 3 models x 10 in-place histories (indicators, then an edit through the public fields / purge / check, then indicators on the same object and on its clone) against the edited model loaded afresh from its JSON; (6) the smallest project through hulc2model (twice) and thor -o (onto a new path and onto the path of an earlier, larger export): the library's bytes every time", ctx.tier.pick(36, 216)),
+        &format!("(1) histories: every sequence of 1 and 2 operations over 9 operations (3 conversions, 5 indicator computations incl. a model without windows and a broken model, 1 collect_hulc_data with extra files) and {} sequences of 3 over a 6-operation core, each run in a fresh worker process: the last operation's observation (model JSON bytes / indicators as JSON value) must equal its observation as the only operation of a fresh process, and repeat identically 3x in-process; 4 conversions x 8 fresh processes byte-identical; (2) id locality: for corpus and generated projects, appending each of 12 unrelated definitions (material, layers, glass, frame, gap, polygon, day/week/year schedule, shade, bridge, floor+space+wall; an unused coloured CONSTRUCTION over an existing LAYERS) keeps every pre-existing element id - also when the added definition borrows the name of an existing definition of another kind of the same family (day/week/year schedules; material/layers/glazing/frame/gap) -, and writing the first block of every type twice (straight after itself / again at the end) gives the same bytes on every conversion, on another thread too, and keeps the ids; (3) schedules: controlled scheduler over the three hooked lock sites, real threads, DFS with preemption bounds as listed in schedule_exploration (deadlock / panic / result-vs-sequential-reference per execution, replay determinism checked first), + a free-running 16-thread sampling complement; (4) the 6 shipped (project, reference model) pairs compared through today's serialiser; (5) 3 models x 10 in-place histories (indicators, then an edit through the public fields / purge / check, then indicators on the same object and on its clone) against the edited model loaded afresh from its JSON; (6) the smallest project through hulc2model (twice) and thor -o (onto a new path and onto the path of an earlier, larger export): the library's bytes every time", ctx.tier.pick(36, 216)),
         true,
         json!({"states": states.max(1), "transitions": transitions.max(1), "traces_validated_against_impl": transitions}),
     )
